@@ -1,8 +1,8 @@
 use std::str::FromStr;
 
 use crate::errors::{Result, SvgdxError};
+use crate::path::{PathSyntax, SvgPathSyntax};
 use crate::position::BoundingBox;
-use crate::types::strp;
 
 impl BoundingBox {
     pub fn xfrm_scale(&self, sx: f32, sy: f32) -> Self {
@@ -43,18 +43,27 @@ impl FromStr for TransformType {
 
     fn from_str(value: &str) -> Result<Self> {
         let mut parts = value.splitn(2, '(');
+        // white space is allowed between the name and the opening bracket
         let name = parts
             .next()
-            .ok_or_else(|| SvgdxError::ParseError("No transform name".to_owned()))?;
-        let args = parts
+            .ok_or_else(|| SvgdxError::ParseError("No transform name".to_owned()))?
+            .trim();
+        let arg_str = parts
             .next()
             .ok_or_else(|| SvgdxError::ParseError("No transform args".to_owned()))?
             .strip_suffix(')')
-            .ok_or_else(|| SvgdxError::ParseError("No closing bracket".to_owned()))?
-            .split(&[',', ' ', '\t', '\n', '\r'])
-            .filter(|&v| !v.is_empty())
-            .map(strp)
-            .collect::<Result<Vec<_>>>()?;
+            .ok_or_else(|| SvgdxError::ParseError("No closing bracket".to_owned()))?;
+        // arguments follow the same number syntax as path data: separated by
+        // white space and / or a comma, or by nothing where a sign or a second
+        // decimal point starts the next number ("10-5", ".5.5")
+        let mut args = Vec::new();
+        let mut tokens = SvgPathSyntax::new(arg_str);
+        tokens.skip_wsp_comma();
+        while !tokens.at_end() {
+            args.push(tokens.read_number().map_err(|_| {
+                SvgdxError::ParseError(format!("Expected a number in '{arg_str}'"))
+            })?);
+        }
         // See https://www.w3.org/TR/SVG11/coords.html#TransformAttribute
         Ok(match name.to_lowercase().as_str() {
             "translate" => {
